@@ -671,3 +671,809 @@ Proof.
   destruct (synced_full exec c st _ j Hwf HB Hsync Hge s Hs) as (A & B & D & E).
   split; [exact Hrun|]. split; [exact A|]. split; [exact B|]. split; [exact D|exact E].
 Qed.
+
+(* ================================================================================================ *)
+(* Part 2.  Retriever -> Syncer                                                                      *)
+(* ================================================================================================ *)
+From Verif Require Model.Retriever Proofs.RetrieverProofs.
+Module R := Verif.Model.Retriever.
+Module RP := Verif.Proofs.RetrieverProofs.
+
+(* every event the DA scan emitted in a run, in emission order *)
+Definition scan_events (c : R.cfg) (da : list R.hinfo) (h : list R.item) : list R.event :=
+  flat_map R.i_events (R.iterations c da h).
+
+(* ---- 2.1 an honest DA layer: "not found" is answered only for heights that hold no blob.  Decidable.
+   Needed only for convergence (a DA node that answers "not found" for a height that holds blobs makes the
+   scan pass that height without handing anything over: C09 allows it, the DA double can script it). *)
+Definition honest_out (o : R.outcome) : bool :=
+  match o with R.OListNil => false | R.OListErr e => negb (R.e_nf e) | _ => true end.
+Definition honest_hi (hi : R.hinfo) : bool :=
+  match R.h_blobs hi with [] => true | _ => forallb honest_out (R.h_outs hi) end.
+Definition honest_da (da : list R.hinfo) : bool := forallb honest_hi da.
+
+Definition rec_honest (r : R.iter_rec) : Prop := In R.ANotFound (R.i_classes r) -> R.i_blobs r = [].
+
+Lemma retrieve_honest h bl o : bl <> [] -> honest_out o = true -> fst (R.retrieve h bl o) <> R.SNotFound.
+Proof.
+  intros Hne Ho. destruct o as [e| |i e|]; cbn [R.retrieve honest_out] in *.
+  - apply negb_true_iff in Ho. rewrite Ho. destruct (R.e_fut e); cbn; discriminate.
+  - discriminate Ho.
+  - unfold R.fetch_listed. destruct bl as [|b bl]; [contradiction|].
+    destruct (R.get_chunks h 0 (Some (i, e)) (R.chunks (b :: bl))) as [[res fm] calls].
+    cbn [fst]. destruct res; discriminate.
+  - unfold R.fetch_listed. destruct bl as [|b bl]; [contradiction|].
+    destruct (R.get_chunks h 0 None (R.chunks (b :: bl))) as [[res fm] calls].
+    cbn [fst]. destruct res; discriminate.
+Qed.
+
+Lemma attempts_honest c h bl : bl <> [] -> forall n outs, forallb honest_out outs = true ->
+  ~ In R.ANotFound (R.p_classes (R.attempts c h bl n outs)) /\
+  forallb honest_out (R.p_outs (R.attempts c h bl n outs)) = true.
+Proof.
+  intros Hne. induction n as [|n IH]; intros outs Hh.
+  - cbn. split; [tauto|exact Hh].
+  - cbn [R.attempts].
+    set (o := match outs with [] => R.OListErr R.err_future | o :: _ => o end).
+    assert (Ho : honest_out o = true).
+    { unfold o. destruct outs as [|o' outs']; [reflexivity|]. cbn in Hh. apply andb_true_iff in Hh. apply Hh. }
+    assert (Ht : forallb honest_out (tl outs) = true).
+    { destruct outs as [|o' outs']; [reflexivity|]. cbn in Hh. apply andb_true_iff in Hh. apply Hh. }
+    pose proof (retrieve_honest h bl o Hne Ho) as Hnf.
+    destruct (R.retrieve h bl o) as [st calls]. cbn [fst] in Hnf.
+    destruct st as [got| | |[|]]; try contradiction.
+    + destruct (R.handle c h got) as [ev mk]. cbn [R.p_classes R.p_outs].
+      split; [intros [Hx|[]]; discriminate Hx|exact Ht].
+    + cbn [R.p_classes R.p_outs]. split; [intros [Hx|[]]; discriminate Hx|exact Ht].
+    + cbn [R.p_classes R.p_outs]. split; [intros [Hx|[]]; discriminate Hx|exact Ht].
+    + destruct (IH (tl outs) Ht) as (A & B). cbn [R.p_classes R.p_outs].
+      split; [intros [Hx|Hx]; [discriminate Hx|exact (A Hx)]|exact B].
+Qed.
+
+Lemma process_honest c h hi : honest_hi hi = true ->
+  (In R.ANotFound (R.p_classes (R.process c h hi)) -> R.h_blobs hi = []) /\
+  forall outs, outs = R.p_outs (R.process c h hi) -> honest_hi {| R.h_blobs := R.h_blobs hi; R.h_outs := outs |} = true.
+Proof.
+  intros Hh. unfold honest_hi in *. cbn [R.h_blobs R.h_outs]. unfold R.process.
+  destruct (R.h_blobs hi) as [|b bl] eqn:Hb; [split; [reflexivity|intros; reflexivity]|].
+  destruct (attempts_honest c h (b :: bl) ltac:(discriminate) R.retries (R.h_outs hi) Hh) as (A & B).
+  split; [intros Hx; contradiction|intros outs ->; exact B].
+Qed.
+
+Lemma scan_honest c : forall rest cur, forallb honest_hi rest = true ->
+  Forall rec_honest (snd (R.scan c cur rest)) /\ forallb honest_hi (R.s_rest (fst (R.scan c cur rest))) = true.
+Proof.
+  induction rest as [|hi rest IH]; intros cur Hh.
+  - cbn [R.scan fst snd R.s_rest forallb]. split; [|reflexivity].
+    constructor; [|constructor]. intros _. reflexivity.
+  - cbn [forallb] in Hh. apply andb_true_iff in Hh. destruct Hh as (Hhi & Hrest).
+    destruct (process_honest c cur hi Hhi) as (A & B).
+    cbn [R.scan]. destruct (R.p_res (R.process c cur hi)) eqn:Hres.
+    + specialize (IH (cur + 1) Hrest). destruct (R.scan c (cur + 1) rest) as [st recs]. cbn [fst snd] in *.
+      destruct IH as (IH1 & IH2). split; [|exact IH2]. constructor; [exact A|exact IH1].
+    + cbn [fst snd R.s_rest forallb]. split; [constructor; [exact A|constructor]|].
+      rewrite (B _ eq_refl), Hrest. reflexivity.
+    + cbn [fst snd R.s_rest forallb]. split; [constructor; [exact A|constructor]|].
+      rewrite (B _ eq_refl), Hrest. reflexivity.
+Qed.
+
+Lemma step_honest c st it : forallb honest_hi (R.s_rest st) = true ->
+  Forall rec_honest (snd (R.step c st it)) /\ forallb honest_hi (R.s_rest (fst (R.step c st it))) = true.
+Proof.
+  intros Hh. destruct it; cbn [R.step].
+  - apply scan_honest, Hh.
+  - cbn [fst snd R.s_rest].
+    assert (Hhd : honest_hi (hd R.no_height (R.s_rest st)) = true).
+    { destruct (R.s_rest st) as [|hi r]; [reflexivity|]. cbn in Hh. apply andb_true_iff in Hh. apply Hh. }
+    destruct (process_honest c (R.s_cursor st) _ Hhd) as (A & B).
+    split; [constructor; [exact A|constructor]|].
+    destruct (R.s_rest st) as [|hi r]; [reflexivity|]. cbn [forallb hd] in *.
+    apply andb_true_iff in Hh. rewrite (B _ eq_refl), (proj2 Hh). reflexivity.
+Qed.
+
+Lemma run_from_honest c : forall h st, forallb honest_hi (R.s_rest st) = true ->
+  Forall rec_honest (concat (snd (R.run_from c st h))).
+Proof.
+  induction h as [|it h IH]; intros st Hh; [constructor|].
+  cbn [R.run_from]. destruct (step_honest c st it Hh) as (A & B).
+  destruct (R.step c st it) as [st1 recs]. cbn [fst snd] in *.
+  specialize (IH st1 B). destruct (R.run_from c st1 h) as [st2 rr]. cbn [snd concat] in *.
+  apply Forall_app. split; assumption.
+Qed.
+
+(* with an honest DA, every height the cursor has passed handed over ALL its genuine unseen blobs *)
+Lemma passed_height_emits c da h n :
+  honest_da da = true -> R.boot c <= n < R.s_cursor (R.final c da h) ->
+  forall e, In e (R.genuine_events c n (R.content c da n)) -> In e (scan_events c da h).
+Proof.
+  intros Hh Hn e He.
+  destruct (RP.no_skip_thm c da h n Hn) as (r & Hin & Hht & _ & _ & _ & Hlast & Hev).
+  assert (Hrh : rec_honest r).
+  { pose proof (run_from_honest c h (R.init c da) Hh) as HF. rewrite Forall_forall in HF. apply HF. exact Hin. }
+  pose proof (proj1 (Forall_forall _ _) (RP.emits_thm c da h) r Hin) as [_ Hct].
+  unfold scan_events. apply in_flat_map. exists r. split; [exact Hin|]. rewrite Hev.
+  destruct Hlast as [Hl|Hl].
+  - unfold R.succeeded. rewrite Hl. exact He.
+  - exfalso. assert (Hin' : In R.ANotFound (R.i_classes r)).
+    { destruct (R.i_classes r) as [|a l] eqn:Hc; [discriminate Hl|].
+      rewrite <- Hl.
+      assert (Hne : a :: l <> []) by discriminate.
+      destruct (exists_last Hne) as (l' & x & Hx). rewrite Hx. rewrite last_last. apply in_or_app. right. left. reflexivity. }
+    specialize (Hrh Hin'). rewrite Hct, Hht in Hrh. rewrite Hrh in He. exact He.
+Qed.
+
+(* ---- 2.2 the retriever's events as sync events ---------------------------------------------------- *)
+Section Scan.
+Variable hd_of : N -> sheader.      (* the signed header a BHeader id decodes to *)
+Variable dd_of : N -> data.         (* the data of the SignedData a BData id decodes to *)
+
+Definition tr_event (e : R.event) : S.event :=
+  match e with R.EHeader id da => S.EvHeader (hd_of id) da | R.EData id da => S.EvData (dd_of id) da end.
+
+(* the genuine blobs of a DA description are header / data blobs of the chain C *)
+Definition blob_of_chain (C : list S.block) (b : R.blob) : Prop :=
+  match b with
+  | R.BHeader id => exists d, In (hd_of id, d) C
+  | R.BData id => exists sh, In (sh, dd_of id) C
+  | _ => True
+  end.
+Definition da_of_chain (C : list S.block) (da : list R.hinfo) : Prop :=
+  Forall (fun hi => Forall (blob_of_chain C) (R.h_blobs hi)) da.
+
+(* a delivery history fed by a set of events: every event it delivers (also the one being handled when the
+   process dies) is one of them; order, multiplicity, restarts and crashes are free *)
+Definition fed_by (evs : list S.event) (hs : list S.item) : Prop :=
+  Forall (fun i => match i with S.IEv e | S.ICrash e _ => In e evs | _ => True end) hs.
+
+Lemma content_blob C c da n b : da_of_chain C da -> In b (R.content c da n) -> blob_of_chain C b.
+Proof.
+  intros Hda Hin. unfold R.content in Hin. destruct (n <? R.boot c); [destruct Hin|].
+  set (i := N.to_nat (n - R.boot c)) in *.
+  destruct (Nat.lt_ge_cases i (length (map R.h_blobs da))) as [Hlt|Hge].
+  - assert (Hnth : In (nth i (map R.h_blobs da) []) (map R.h_blobs da)) by (apply nth_In; exact Hlt).
+    apply in_map_iff in Hnth. destruct Hnth as (hi & Heq & Hhi).
+    unfold da_of_chain in Hda. rewrite Forall_forall in Hda. specialize (Hda hi Hhi).
+    rewrite Forall_forall in Hda. apply Hda. rewrite Heq. exact Hin.
+  - rewrite nth_overflow in Hin by exact Hge. destruct Hin.
+Qed.
+
+Lemma genuine_in c n bl e : In e (R.genuine_events c n bl) ->
+  match e with R.EHeader id _ => In (R.BHeader id) bl | R.EData id _ => In (R.BData id) bl end.
+Proof.
+  unfold R.genuine_events. intros Hin. apply in_flat_map in Hin. destruct Hin as (b & Hb & He).
+  destruct b as [id|id| |id|k]; try destruct He.
+  - destruct (R.mem id (R.c_seen_h c)); [destruct He|]. destruct He as [<-|[]]. exact Hb.
+  - destruct (R.mem id (R.c_seen_d c)); [destruct He|]. destruct He as [<-|[]]. exact Hb.
+Qed.
+
+(* every event of every run of the scan over a DA whose genuine blobs are C's is an item of C *)
+Lemma scan_events_in C c da h :
+  da_of_chain C da -> Forall (S.ev_in C) (map tr_event (scan_events c da h)).
+Proof.
+  intros Hda. rewrite Forall_forall. intros e He. apply in_map_iff in He. destruct He as (re & <- & Hre).
+  unfold scan_events in Hre. apply in_flat_map in Hre. destruct Hre as (r & Hr & Hev).
+  pose proof (proj1 (Forall_forall _ _) (RP.emits_thm c da h) r Hr) as [Hem Hct].
+  unfold R.emits_ok in Hem. rewrite Hem in Hev.
+  destruct (R.succeeded (R.i_classes r)); [|destruct Hev].
+  apply genuine_in in Hev. rewrite Hct in Hev.
+  destruct re as [id daH|id daH]; apply (content_blob C) in Hev; try exact Hda; exact Hev.
+Qed.
+
+Lemma fed_item_in C evs hs : Forall (S.ev_in C) evs -> fed_by evs hs -> Forall (S.item_in C) hs.
+Proof.
+  intros Hev Hfed. unfold fed_by in Hfed. rewrite Forall_forall in *. intros i Hi. specialize (Hfed i Hi).
+  destruct i as [e| |e k|k]; cbn [S.item_in]; try exact I; apply Hev, Hfed.
+Qed.
+
+(* the events of any number of scan runs (a node restart starts a new run from the stored DA height) *)
+Definition runs_events (runs : list (R.cfg * list R.hinfo * list R.item)) : list S.event :=
+  flat_map (fun x => let '(c, da, h) := x in map tr_event (scan_events c da h)) runs.
+
+Lemma runs_events_in C runs :
+  Forall (fun x => let '(c, da, h) := x in da_of_chain C da) runs -> Forall (S.ev_in C) (runs_events runs).
+Proof.
+  intros Hr. rewrite Forall_forall in *. intros e He. unfold runs_events in He. apply in_flat_map in He.
+  destruct He as ([[c da] h] & Hx & He). specialize (Hr _ Hx). cbn in Hr.
+  pose proof (scan_events_in C c da h Hr) as HF. rewrite Forall_forall in HF. apply HF, He.
+Qed.
+
+(* Target 2, safety: DA scan + sync.  Any number of scan runs over DA descriptions whose genuine blobs are
+   the header / data blobs of a valid chain; the sync loop is handed their events in any order, with any
+   duplication, across clean restarts and crashes: the node holds exactly a prefix of the chain. *)
+Theorem scan_sync_follows exec g k C runs hs :
+  S.ChainValid exec g k C ->
+  Forall (fun x => let '(c, da, h) := x in da_of_chain C da) runs ->
+  fed_by (runs_events runs) hs ->
+  S.recovered exec g C (S.run exec g hs).
+Proof.
+  intros HV Hr Hfed. eapply SP.recovery; [exact HV|]. eapply fed_item_in; [apply runs_events_in; exact Hr|exact Hfed].
+Qed.
+
+Theorem scan_sync_follows_clean exec g k C runs hs :
+  S.ChainValid exec g k C ->
+  Forall (fun x => let '(c, da, h) := x in da_of_chain C da) runs ->
+  fed_by (runs_events runs) hs -> forallb S.is_clean hs = true ->
+  S.n_status (S.run exec g hs) = S.Running /\
+  exists j, S.synced_to exec g C (S.run exec g hs) j /\
+            S.n_log (S.run exec g hs) = S.calls_after exec (S.genesis_state g) C j.
+Proof.
+  intros HV Hr Hfed Hcl. eapply SP.safety; [exact HV| |exact Hcl].
+  eapply fed_item_in; [apply runs_events_in; exact Hr|exact Hfed].
+Qed.
+
+(* the header blob of block b is on the DA, unseen, at a height the scan has passed *)
+Definition header_on_da (c : R.cfg) (da : list R.hinfo) (h : list R.item) (b : S.block) : Prop :=
+  exists n id, R.boot c <= n < R.s_cursor (R.final c da h) /\ In (R.BHeader id) (R.content c da n) /\
+               R.mem id (R.c_seen_h c) = false /\ hd_of id = fst b.
+Definition data_on_da (c : R.cfg) (da : list R.hinfo) (h : list R.item) (b : S.block) : Prop :=
+  exists n id, R.boot c <= n < R.s_cursor (R.final c da h) /\ In (R.BData id) (R.content c da n) /\
+               R.mem id (R.c_seen_d c) = false /\ dd_of id = snd b.
+
+Lemma genuine_header c n bl id : In (R.BHeader id) bl -> R.mem id (R.c_seen_h c) = false ->
+  In (R.EHeader id n) (R.genuine_events c n bl).
+Proof.
+  intros Hin Hm. unfold R.genuine_events. apply in_flat_map. exists (R.BHeader id). split; [exact Hin|].
+  rewrite Hm. left. reflexivity.
+Qed.
+Lemma genuine_data c n bl id : In (R.BData id) bl -> R.mem id (R.c_seen_d c) = false ->
+  In (R.EData id n) (R.genuine_events c n bl).
+Proof.
+  intros Hin Hm. unfold R.genuine_events. apply in_flat_map. exists (R.BData id). split; [exact Hin|].
+  rewrite Hm. left. reflexivity.
+Qed.
+
+(* Target 2, convergence: one scan run over an HONEST DA that holds — below the scan's cursor — the header
+   blob of each of the first m blocks and the data blob of each non-empty one; the sync loop consumes, in any
+   order and with clean restarts, a history that contains every emitted event (and nothing else): the node
+   reaches height initial + m - 1.  Guard distinct_commitmentsb: C02's open finding. *)
+Theorem scan_sync_converges exec g k C c da h hs m :
+  S.ChainValid exec g k C -> S.distinct_commitmentsb C = true ->
+  da_of_chain C da -> honest_da da = true ->
+  (m <= length C)%nat ->
+  (forall i b, (i < m)%nat -> nth_error C i = Some b -> header_on_da c da h b) ->
+  (forall i b, (i < m)%nat -> nth_error C i = Some b -> d_txs (snd b) <> [] -> data_on_da c da h b) ->
+  fed_by (map tr_event (scan_events c da h)) hs -> forallb S.is_clean hs = true ->
+  (forall e, In e (scan_events c da h) -> In (S.IEv (tr_event e)) hs) ->
+  S.n_status (S.run exec g hs) = S.Running /\
+  S.g_initial g + N.of_nat m - 1 <= S.d_height (S.n_disk (S.run exec g hs)) /\
+  exists j, S.synced_to exec g C (S.run exec g hs) j.
+Proof.
+  intros HV Hdist Hda Hhon Hm Hhd Hdd Hfed Hcl Hall.
+  assert (Hitems : Forall (S.item_in C) hs).
+  { eapply fed_item_in; [apply scan_events_in; exact Hda|exact Hfed]. }
+  destruct (SP.safety exec g k C hs HV Hitems Hcl) as (Hrun & j & Hsync & _).
+  split; [exact Hrun|]. split; [|exists j; exact Hsync].
+  eapply SP.complete_partial; try eassumption.
+  - intros i b Hi Hb. destruct (Hhd i b Hi Hb) as (n & id & Hn & Hin & Hseen & Heq).
+    exists n. rewrite <- Heq. apply (Hall (R.EHeader id n)).
+    eapply passed_height_emits; [exact Hhon|exact Hn|]. apply genuine_header; assumption.
+  - intros i b Hi Hb Hne. destruct (Hdd i b Hi Hb Hne) as (n & id & Hn & Hin & Hseen & Heq).
+    exists n. rewrite <- Heq. apply (Hall (R.EData id n)).
+    eapply passed_height_emits; [exact Hhon|exact Hn|]. apply genuine_data; assumption.
+Qed.
+
+End Scan.
+
+(* Producer -> DA -> Retriever -> Syncer in one statement: the chain is the sequencer's committed chain *)
+Theorem e2e_da_path exec c h (hd_of : N -> sheader) (dd_of : N -> data) runs hs :
+  P.wf_cfg c -> exec_followsb exec (P.g_execs (P.run c h)) = true ->
+  let C := committed_chain c (P.run c h) in let g := sync_config c (P.run c h) in
+  Forall (fun x => let '(rc, da, rh) := x in da_of_chain hd_of dd_of C da) runs ->
+  fed_by (runs_events hd_of dd_of runs) hs ->
+  S.recovered exec g C (S.run exec g hs).
+Proof.
+  intros Hwf Hex C g Hruns Hfed. destruct (producer_chain_sync_valid_all exec c h Hwf Hex) as (HV & _).
+  eapply scan_sync_follows; eassumption.
+Qed.
+
+(* ================================================================================================ *)
+(* Part 3.  Submitter -> Includer                                                                    *)
+(* ================================================================================================ *)
+From Verif Require Model.Submitter Model.Includer Proofs.SubmitterProofs Proofs.IncluderProofs.
+Module Sub := Verif.Model.Submitter.
+Module SubP := Verif.Proofs.SubmitterProofs.
+Module Inc := Verif.Model.Includer.
+Module IncP := Verif.Proofs.IncluderProofs.
+
+Section SubInc.
+Variable dah : Sub.kind -> nat -> N.   (* the DA height at which the DA layer included the j-th submit call of a kind
+                                          (j = 0 for the oldest call): res.Height of that call *)
+
+(* ---- 3.1 the submitter model's DA log, with DA heights ------------------------------------------- *)
+(* the heights of the blobs the DA layer kept of a call: exactly the model's own [log_call] *)
+Definition call_accepts (cl : Sub.call) : list N :=
+  firstn (N.to_nat (Sub.da_accepts (Sub.c_out cl) (N.of_nat (length (Sub.c_hs cl))))) (Sub.c_hs cl).
+
+(* the heights the CALLER was told were accepted (StatusSuccess, SubmittedCount): postSubmit marks these *)
+Definition call_acked (cl : Sub.call) : list N :=
+  match Sub.helper_status (Sub.c_out cl) (N.of_nat (length (Sub.c_hs cl))) with
+  | (Sub.SSuccess, cnt) => firstn (N.to_nat cnt) (Sub.c_hs cl)
+  | _ => []
+  end.
+
+(* calls are logged newest first; the index of a call is the number of older calls *)
+Fixpoint da_entries (k : Sub.kind) (cs : list Sub.call) : list (N * N) :=   (* (block height, DA height) *)
+  match cs with
+  | [] => []
+  | cl :: r => map (fun x => (x, dah k (length r))) (rev (call_accepts cl)) ++ da_entries k r
+  end.
+
+Fixpoint acked_entries (k : Sub.kind) (cs : list Sub.call) (lo : nat) : list (N * N) :=   (* calls of index >= lo, oldest first *)
+  match cs with
+  | [] => []
+  | cl :: r => if (lo <=? length r)%nat
+               then acked_entries k r lo ++ map (fun x => (x, dah k (length r))) (call_acked cl)
+               else []
+  end.
+
+Lemma acked_sub_accepts cl x : In x (call_acked cl) -> In x (call_accepts cl).
+Proof.
+  unfold call_acked, call_accepts, Sub.helper_status, Sub.da_accepts.
+  destruct (Sub.c_out cl) as [k|f|k f|b].
+  - destruct ((N.min k (N.of_nat (length (Sub.c_hs cl))) =? 0) && negb (N.of_nat (length (Sub.c_hs cl)) =? 0)); [intros []|].
+    intros H; exact H.
+  - destruct f; intros [].
+  - destruct f; intros [].
+  - intros [].
+Qed.
+
+Lemma acked_in_da k cs : forall lo e, In e (acked_entries k cs lo) -> In e (da_entries k cs).
+Proof.
+  induction cs as [|cl r IH]; intros lo e He; [destruct He|].
+  cbn [acked_entries da_entries] in *. destruct (lo <=? length r)%nat; [|destruct He].
+  apply in_or_app. apply in_app_or in He. destruct He as [He|He].
+  - right. eapply IH; exact He.
+  - left. apply in_map_iff in He. destruct He as (x & <- & Hx). apply in_map_iff. exists x. split; [reflexivity|].
+    apply -> in_rev. apply acked_sub_accepts, Hx.
+Qed.
+
+Lemma acked_lo k cs : forall lo e, In e (acked_entries k cs lo) -> In e (acked_entries k cs 0).
+Proof.
+  induction cs as [|cl r IH]; intros lo e He; [destruct He|].
+  cbn [acked_entries] in *. destruct (lo <=? length r)%nat; [|destruct He].
+  cbn [Nat.leb]. apply in_or_app. apply in_app_or in He. destruct He as [He|He]; [left; eapply IH; exact He|right; exact He].
+Qed.
+
+Lemma acked_ext k new : forall cs e, In e (acked_entries k cs 0) -> In e (acked_entries k (new ++ cs) 0).
+Proof.
+  induction new as [|cl r IH]; intros cs e He; [exact He|].
+  cbn [app acked_entries Nat.leb]. apply in_or_app. left. apply IH, He.
+Qed.
+
+Lemma da_entries_ext k new : forall cs e, In e (da_entries k cs) -> In e (da_entries k (new ++ cs)).
+Proof.
+  induction new as [|cl r IH]; intros cs e He; [exact He|].
+  cbn [app da_entries]. apply in_or_app. right. apply IH, He.
+Qed.
+
+(* the heights of [da_entries] are exactly the model's [acc] *)
+Definition acc_is_log (sd : Sub.side) : Prop :=
+  Sub.acc sd = flat_map (fun cl => rev (call_accepts cl)) (Sub.calls sd).
+
+Lemma da_entries_heights k cs : map fst (da_entries k cs) = flat_map (fun cl => rev (call_accepts cl)) cs.
+Proof.
+  induction cs as [|cl r IH]; [reflexivity|]. cbn [da_entries flat_map]. rewrite map_app, IH, map_map. cbn [fst].
+  rewrite map_id. reflexivity.
+Qed.
+
+(* ---- 3.2 what every step of the submitter does to a side's call log -------------------------------- *)
+Definition ext_of (sd0 sd : Sub.side) : Prop := exists new, Sub.calls sd = new ++ Sub.calls sd0.
+
+Lemma ext_refl sd : ext_of sd sd. Proof. exists []. reflexivity. Qed.
+Lemma ext_trans a b d : ext_of a b -> ext_of b d -> ext_of a d.
+Proof. intros (n1 & E1) (n2 & E2). exists (n2 ++ n1). rewrite E2, E1, app_assoc. reflexivity. Qed.
+
+Lemma set_last_fields n sd : Sub.calls (Sub.set_last n sd) = Sub.calls sd /\ Sub.acc (Sub.set_last n sd) = Sub.acc sd.
+Proof. unfold Sub.set_last. destruct (_ <? _); split; reflexivity. Qed.
+
+Lemma ext_log sd0 rem o sd : ext_of sd0 sd -> ext_of sd0 (Sub.log_call rem o sd).
+Proof. intros (new & E). eexists (_ :: new). cbn [Sub.log_call Sub.calls]. rewrite E. reflexivity. Qed.
+Lemma ext_set sd0 n sd : ext_of sd0 sd -> ext_of sd0 (Sub.set_last n sd).
+Proof. intros (new & E). exists new. rewrite (proj1 (set_last_fields n sd)). exact E. Qed.
+
+Lemma ail_log rem o sd : acc_is_log sd -> acc_is_log (Sub.log_call rem o sd).
+Proof. unfold acc_is_log. intros E. cbn [Sub.log_call Sub.acc Sub.calls flat_map]. rewrite E. reflexivity. Qed.
+Lemma ail_set n sd : acc_is_log sd -> acc_is_log (Sub.set_last n sd).
+Proof. unfold acc_is_log. destruct (set_last_fields n sd) as (A & B). rewrite A, B. tauto. Qed.
+
+Definition side_ok (sd0 sd : Sub.side) : Prop := ext_of sd0 sd /\ acc_is_log sd.
+
+Lemma side_ok_log sd0 rem o sd : side_ok sd0 sd -> side_ok sd0 (Sub.log_call rem o sd).
+Proof. intros (A & B). split; [apply ext_log, A|apply ail_log, B]. Qed.
+Lemma side_ok_set sd0 n sd : side_ok sd0 sd -> side_ok sd0 (Sub.set_last n sd).
+Proof. intros (A & B). split; [apply ext_set, A|apply ail_set, B]. Qed.
+
+Lemma tick_side_ok c o init hi sc sd0 sd :
+  side_ok sd0 sd -> side_ok sd0 (fst (fst (fst (Sub.tick_side c o init hi sc sd)))).
+Proof. apply (SubP.tick_pres (side_ok sd0) (side_ok_log sd0) (side_ok_set sd0)). Qed.
+Lemma loop_side_ok c o init hi fuel sc sd0 sd :
+  side_ok sd0 sd -> side_ok sd0 (Sub.loop_side c o init hi fuel sc sd).
+Proof. apply (SubP.loop_pres (side_ok sd0) (side_ok_log sd0) (side_ok_set sd0)). Qed.
+
+Lemma step_side_ok c s i k :
+  acc_is_log (Sub.get_side k s) ->
+  side_ok (Sub.get_side k s) (Sub.get_side k (fst (Sub.step c s i))).
+Proof.
+  intros Ha.
+  assert (Hsame : side_ok (Sub.get_side k s) (Sub.get_side k s)) by (split; [apply ext_refl|exact Ha]).
+  destruct i as [b|k' sc|k' sc|]; cbn [Sub.step].
+  - destruct k; exact Hsame.
+  - destruct k, k'; cbn [Sub.get_side] in *.
+    + pose proof (tick_side_ok c (Sub.rel_of Sub.KHeader s) (Sub.s_init s) (Sub.height s) sc (Sub.s_h s) (Sub.s_h s) Hsame) as Ht.
+      destruct (Sub.tick_side c _ (Sub.s_init s) (Sub.height s) sc _) as [[[sd' sc'] r] el]. exact Ht.
+    + destruct (Sub.tick_side c _ (Sub.s_init s) (Sub.height s) sc _) as [[[sd' sc'] r] el]. exact Hsame.
+    + destruct (Sub.tick_side c _ (Sub.s_init s) (Sub.height s) sc _) as [[[sd' sc'] r] el]. exact Hsame.
+    + pose proof (tick_side_ok c (Sub.rel_of Sub.KData s) (Sub.s_init s) (Sub.height s) sc (Sub.s_d s) (Sub.s_d s) Hsame) as Ht.
+      destruct (Sub.tick_side c _ (Sub.s_init s) (Sub.height s) sc _) as [[[sd' sc'] r] el]. exact Ht.
+  - pose proof (loop_side_ok c (Sub.rel_of k' s) (Sub.s_init s) (Sub.height s) (S (length sc)) sc (Sub.get_side k s) (Sub.get_side k s) Hsame) as Ht.
+    destruct k, k'; cbn [fst Sub.get_side Sub.set_side Sub.s_h Sub.s_d] in *; try exact Hsame; exact Ht.
+  - destruct k; cbn [fst Sub.get_side Sub.s_h Sub.s_d]; (split; [exists []; reflexivity|exact Ha]).
+Qed.
+
+Lemma run_from_side_ok c k : forall h s,
+  acc_is_log (Sub.get_side k s) -> side_ok (Sub.get_side k s) (Sub.get_side k (Sub.run_from c s h)).
+Proof.
+  induction h as [|i h IH]; intros s Ha; [split; [apply ext_refl|exact Ha]|].
+  cbn [Sub.run_from fold_left]. destruct (step_side_ok c s i k Ha) as (A & B).
+  destruct (IH _ B) as (A' & B'). split; [eapply ext_trans; eassumption|exact B'].
+Qed.
+
+Lemma boot_acc_is_log init k : acc_is_log (Sub.get_side k (Sub.boot init)).
+Proof. destruct k; reflexivity. Qed.
+
+(* the DA log of the model ([acc]) and the DA log with heights ([da_entries]) hold the same block heights *)
+Lemma acc_da_entries c init h k x :
+  In x (Sub.acc (Sub.get_side k (Sub.run c init h))) <->
+  exists da, In (x, da) (da_entries k (Sub.calls (Sub.get_side k (Sub.run c init h)))).
+Proof.
+  destruct (run_from_side_ok c k h (Sub.boot init) (boot_acc_is_log init k)) as (_ & Hail).
+  fold (Sub.run c init h) in Hail. unfold acc_is_log in Hail. rewrite Hail, <- (da_entries_heights k).
+  split.
+  - intros Hin. apply in_map_iff in Hin. destruct Hin as ([y da] & <- & Hin). exists da. exact Hin.
+  - intros (da & Hin). apply in_map_iff. exists (x, da). split; [reflexivity|exact Hin].
+Qed.
+
+(* ---- 3.3 the includer history that a submitter history produces ------------------------------------ *)
+Variable hid : N -> N.                 (* height -> id of header.Hash() of the block committed at that height *)
+Variable did : N -> N.                 (* height -> id of data.DACommitment() (used for blocks with transactions) *)
+Definition mk_blk (n : N) (nonempty : bool) : Inc.blk :=
+  {| Inc.bh := hid n; Inc.bd := if nonempty then did n else 0 |}.
+
+Fixpoint blks_from (n : N) (l : list bool) : list Inc.blk :=
+  match l with [] => [] | b :: r => mk_blk n b :: blks_from (n + 1) r end.
+
+Definition mark_item (k : Sub.kind) (e : N * N) : Inc.item :=
+  match k with Sub.KHeader => Inc.IMarkH (hid (fst e)) (snd e) | Sub.KData => Inc.IMarkD (did (fst e)) (snd e) end.
+
+(* the combined node: block production, the two submission loops, the includer loop, restarts and crashes *)
+Inductive citem :=
+| CPublish (nonempty : bool)                 (* a block is committed: Submitter.IPublish + Includer.IAppend *)
+| CTick (k : Sub.kind) (sc : list Sub.outcome)   (* one submission-loop iteration; its postSubmit marks follow *)
+| CLoop (k : Sub.kind) (sc : list Sub.outcome)
+| CInclude                                   (* the includer runs *)
+| CRestart                                   (* clean stop and start *)
+| CCrash (n : nat)                           (* the process dies n effects into an includer run; start *)
+| CFault (n : nat).                          (* effect n+1 of an includer run fails; clean stop; start *)
+
+Definition sub_item (i : citem) : list Sub.item :=
+  match i with
+  | CPublish b => [Sub.IPublish b]
+  | CTick k sc => [Sub.ITick k sc]
+  | CLoop k sc => [Sub.ILoop k sc]
+  | CInclude => []
+  | CRestart | CCrash _ | CFault _ => [Sub.IRestart]
+  end.
+Definition sub_hist (ch : list citem) : list Sub.item := flat_map sub_item ch.
+
+Definition new_marks (k : Sub.kind) (s s' : Sub.state) : list Inc.item :=
+  map (mark_item k) (acked_entries k (Sub.calls (Sub.get_side k s')) (length (Sub.calls (Sub.get_side k s)))).
+
+Definition inc_items (c : Sub.cfg) (s : Sub.state) (i : citem) : list Inc.item :=
+  let s' := Sub.run_from c s (sub_item i) in
+  match i with
+  | CPublish b => [Inc.IAppend (mk_blk (Sub.height s + 1) b)]
+  | CTick k _ | CLoop k _ => new_marks k s s'
+  | CInclude => [Inc.IInclude]
+  | CRestart => [Inc.IRestart]
+  | CCrash n => [Inc.ICrash n]
+  | CFault n => [Inc.IFault n]
+  end.
+
+Fixpoint derive_from (c : Sub.cfg) (s : Sub.state) (ch : list citem) : list Inc.item :=
+  match ch with
+  | [] => []
+  | i :: r => inc_items c s i ++ derive_from c (Sub.run_from c s (sub_item i)) r
+  end.
+Definition derive (c : Sub.cfg) (init : N) (ch : list citem) : list Inc.item := derive_from c (Sub.boot init) ch.
+
+(* ---- 3.4 an includer history backed by a submitter state ------------------------------------------- *)
+Definition appended (hi : list Inc.item) : list Inc.blk :=
+  flat_map (fun i => match i with Inc.IAppend b => [b] | _ => [] end) hi.
+
+Definition backed (s : Sub.state) (hi : list Inc.item) : Prop :=
+  appended hi = blks_from (Sub.s_init s) (Sub.s_chain s) /\
+  (forall id da, In (Inc.IMarkH id da) hi ->
+     exists x, id = hid x /\ In (x, da) (acked_entries Sub.KHeader (Sub.calls (Sub.s_h s)) 0)) /\
+  (forall id da, In (Inc.IMarkD id da) hi ->
+     exists x, id = did x /\ In (x, da) (acked_entries Sub.KData (Sub.calls (Sub.s_d s)) 0)).
+
+Lemma blks_from_app l : forall n b, blks_from n (l ++ [b]) = blks_from n l ++ [mk_blk (n + N.of_nat (length l)) b].
+Proof.
+  induction l as [|x l IH]; intros n b; cbn [app blks_from length].
+  - replace (n + N.of_nat 0) with n by lia. reflexivity.
+  - rewrite IH. replace (n + 1 + N.of_nat (length l)) with (n + N.of_nat (S (length l))) by lia. reflexivity.
+Qed.
+
+Lemma blks_from_nth l : forall n i, nth_error (blks_from n l) i = option_map (mk_blk (n + N.of_nat i)) (nth_error l i).
+Proof.
+  induction l as [|x l IH]; intros n i; [destruct i; reflexivity|].
+  destruct i as [|i]; cbn [blks_from nth_error option_map].
+  - replace (n + N.of_nat 0) with n by lia. reflexivity.
+  - rewrite IH. replace (n + 1 + N.of_nat i) with (n + N.of_nat (S i)) by lia. reflexivity.
+Qed.
+
+Lemma sub_run_from_app c h1 : forall h2 s, Sub.run_from c s (h1 ++ h2) = Sub.run_from c (Sub.run_from c s h1) h2.
+Proof. intros h2 s. unfold Sub.run_from. apply fold_left_app. Qed.
+
+Lemma step_chain c s i : 
+  Sub.s_chain (fst (Sub.step c s i)) = match i with Sub.IPublish b => Sub.s_chain s ++ [b] | _ => Sub.s_chain s end.
+Proof.
+  destruct i as [b|k sc|k sc|]; cbn [Sub.step]; try reflexivity.
+  - destruct (Sub.tick_side c _ _ _ sc _) as [[[sd' sc'] r] el]. destruct k; reflexivity.
+  - destruct k; reflexivity.
+Qed.
+
+(* a mark of index >= lo of a later log is a mark of the final log *)
+Lemma marks_backed k s1 s2 e :
+  ext_of (Sub.get_side k s1) (Sub.get_side k s2) ->
+  In e (acked_entries k (Sub.calls (Sub.get_side k s1)) 0) ->
+  In e (acked_entries k (Sub.calls (Sub.get_side k s2)) 0).
+Proof. intros (new & E) He. rewrite E. apply acked_ext, He. Qed.
+
+Lemma backed_mono c s hi h :
+  acc_is_log (Sub.s_h s) -> acc_is_log (Sub.s_d s) ->
+  Sub.s_chain (Sub.run_from c s h) = Sub.s_chain s -> Sub.s_init (Sub.run_from c s h) = Sub.s_init s ->
+  backed s hi -> backed (Sub.run_from c s h) hi.
+Proof.
+  intros Hh Hd Hc Hi (A & B & D). split; [rewrite Hc, Hi; exact A|]. split.
+  - intros id da Hin. destruct (B id da Hin) as (x & -> & Hx). exists x. split; [reflexivity|].
+    apply (marks_backed Sub.KHeader s); [|exact Hx]. apply (run_from_side_ok c Sub.KHeader h s Hh).
+  - intros id da Hin. destruct (D id da Hin) as (x & -> & Hx). exists x. split; [reflexivity|].
+    apply (marks_backed Sub.KData s); [|exact Hx]. apply (run_from_side_ok c Sub.KData h s Hd).
+Qed.
+
+Lemma appended_app a b : appended (a ++ b) = appended a ++ appended b.
+Proof. unfold appended. apply flat_map_app. Qed.
+
+Lemma new_marks_no_append k s s' : appended (new_marks k s s') = [].
+Proof.
+  unfold new_marks. induction (acked_entries k _ _) as [|e l IH]; [reflexivity|].
+  cbn [map appended flat_map]. destruct k; cbn [mark_item]; exact IH.
+Qed.
+
+Lemma in_new_marks k s s' it : In it (new_marks k s s') ->
+  exists e, it = mark_item k e /\ In e (acked_entries k (Sub.calls (Sub.get_side k s')) 0).
+Proof.
+  unfold new_marks. intros Hin. apply in_map_iff in Hin. destruct Hin as (e & <- & He).
+  exists e. split; [reflexivity|]. eapply acked_lo; exact He.
+Qed.
+
+(* the derived history is backed by the submitter state it was derived along *)
+Lemma derive_backed c : forall ch s hi0,
+  1 <= Sub.s_init s -> acc_is_log (Sub.s_h s) -> acc_is_log (Sub.s_d s) ->
+  backed s hi0 -> backed (Sub.run_from c s (sub_hist ch)) (hi0 ++ derive_from c s ch).
+Proof.
+  induction ch as [|i ch IH]; intros s hi0 H1 Hh Hd HB.
+  - cbn [sub_hist flat_map derive_from Sub.run_from fold_left]. rewrite app_nil_r. exact HB.
+  - cbn [sub_hist flat_map derive_from]. fold (sub_hist ch). rewrite sub_run_from_app, app_assoc.
+    set (s' := Sub.run_from c s (sub_item i)).
+    assert (Hh' : side_ok (Sub.s_h s) (Sub.s_h s')) by (apply (run_from_side_ok c Sub.KHeader (sub_item i) s Hh)).
+    assert (Hd' : side_ok (Sub.s_d s) (Sub.s_d s')) by (apply (run_from_side_ok c Sub.KData (sub_item i) s Hd)).
+    assert (Hi' : Sub.s_init s' = Sub.s_init s) by apply SubP.run_from_init.
+    apply IH; try (rewrite Hi'; exact H1); try apply Hh'; try apply Hd'.
+    (* one combined item *)
+    assert (Hkeep : Sub.s_chain s' = Sub.s_chain s -> forall items,
+              appended items = [] ->
+              (forall id da, In (Inc.IMarkH id da) items ->
+                 exists x, id = hid x /\ In (x, da) (acked_entries Sub.KHeader (Sub.calls (Sub.s_h s')) 0)) ->
+              (forall id da, In (Inc.IMarkD id da) items ->
+                 exists x, id = did x /\ In (x, da) (acked_entries Sub.KData (Sub.calls (Sub.s_d s')) 0)) ->
+              backed s' (hi0 ++ items)).
+    { intros Hc items Hap HmH HmD.
+      destruct (backed_mono c s hi0 (sub_item i) Hh Hd Hc Hi' HB) as (A & B & D). fold s' in A, B, D.
+      split; [rewrite appended_app, Hap, app_nil_r; exact A|]. split.
+      - intros id da Hin. apply in_app_or in Hin. destruct Hin as [Hin|Hin]; [apply B, Hin|apply HmH, Hin].
+      - intros id da Hin. apply in_app_or in Hin. destruct Hin as [Hin|Hin]; [apply D, Hin|apply HmD, Hin]. }
+    assert (Hsingle : forall it, (forall b, it <> Inc.IAppend b) -> (forall id da, it <> Inc.IMarkH id da) ->
+              (forall id da, it <> Inc.IMarkD id da) -> Sub.s_chain s' = Sub.s_chain s -> backed s' (hi0 ++ [it])).
+    { intros it N1 N2 N3 Hc. apply Hkeep; [exact Hc| | |].
+      - cbn. destruct it; try reflexivity. exfalso; eapply N1; reflexivity.
+      - intros id da [Hx|[]]. exfalso; eapply N2; exact Hx.
+      - intros id da [Hx|[]]. exfalso; eapply N3; exact Hx. }
+    assert (Hmarks : forall k, Sub.s_chain s' = Sub.s_chain s -> backed s' (hi0 ++ new_marks k s s')).
+    { intros k Hc. apply Hkeep; [exact Hc|apply new_marks_no_append| |].
+      - intros id da Hin. apply in_new_marks in Hin. destruct Hin as ([x da'] & Heq & He).
+        destruct k; cbn [mark_item fst snd] in Heq; inversion Heq; subst. exists x. split; [reflexivity|exact He].
+      - intros id da Hin. apply in_new_marks in Hin. destruct Hin as ([x da'] & Heq & He).
+        destruct k; cbn [mark_item fst snd] in Heq; inversion Heq; subst. exists x. split; [reflexivity|exact He]. }
+    assert (Hstep : forall it, sub_item i = [it] -> Sub.s_chain s' =
+              match it with Sub.IPublish b => Sub.s_chain s ++ [b] | _ => Sub.s_chain s end).
+    { intros it E. unfold s'. rewrite E. cbn [Sub.run_from fold_left]. apply step_chain. }
+    destruct i as [b|k sc|k sc| | |n|n]; cbn [inc_items]; fold s'.
+    + (* publish *)
+      destruct HB as (A & B & D).
+      assert (Hc : Sub.s_chain s' = Sub.s_chain s ++ [b]) by (apply (Hstep (Sub.IPublish b)); reflexivity).
+      assert (Hcalls : Sub.s_h s' = Sub.s_h s /\ Sub.s_d s' = Sub.s_d s) by (split; reflexivity).
+      destruct Hcalls as (E1 & E2).
+      split; [|split; [intros id da Hin|intros id da Hin]].
+      * rewrite appended_app, A, Hc, Hi', blks_from_app. cbn [appended flat_map app]. unfold Sub.height.
+        replace (Sub.s_init s - 1 + N.of_nat (length (Sub.s_chain s)) + 1)
+          with (Sub.s_init s + N.of_nat (length (Sub.s_chain s))) by lia. reflexivity.
+      * rewrite E1. apply in_app_or in Hin. destruct Hin as [Hin|[Hx|[]]]; [apply B, Hin|discriminate Hx].
+      * rewrite E2. apply in_app_or in Hin. destruct Hin as [Hin|[Hx|[]]]; [apply D, Hin|discriminate Hx].
+    + apply Hmarks. apply (Hstep (Sub.ITick k sc)). reflexivity.
+    + apply Hmarks. apply (Hstep (Sub.ILoop k sc)). reflexivity.
+    + apply Hsingle; try discriminate. reflexivity.
+    + apply Hsingle; try discriminate. apply (Hstep Sub.IRestart). reflexivity.
+    + apply Hsingle; try discriminate. apply (Hstep Sub.IRestart). reflexivity.
+    + apply Hsingle; try discriminate. apply (Hstep Sub.IRestart). reflexivity.
+Qed.
+
+Lemma backed_boot init : backed (Sub.boot init) [].
+Proof. split; [reflexivity|]. split; intros id da []. Qed.
+
+Theorem derive_is_backed c init ch : 1 <= init -> backed (Sub.run c init (sub_hist ch)) (derive c init ch).
+Proof.
+  intros H1. unfold Sub.run, derive.
+  apply (derive_backed c ch (Sub.boot init) [] H1 (boot_acc_is_log init Sub.KHeader) (boot_acc_is_log init Sub.KData) (backed_boot init)).
+Qed.
+
+(* ---- 3.5 end to end: what the reported DA-included height says about the submitter's DA log --------- *)
+Lemma inc_step_chain nd i :
+  Inc.chain (Inc.step nd i) = Inc.chain nd ++ match i with Inc.IAppend b => [b] | _ => [] end.
+Proof.
+  destruct i as [b|id da|id da| |k|k|]; cbn [Inc.step Inc.chain Inc.boot Inc.save]; try (rewrite app_nil_r); try reflexivity.
+  - apply (IncP.apply_effs_fields (Inc.include_effs nd) nd).
+  - unfold Inc.dying. apply (IncP.apply_effs_fields _ nd).
+  - unfold Inc.dying. apply (IncP.apply_effs_fields _ nd).
+Qed.
+
+Lemma inc_chain_run hi : forall nd, Inc.chain (Inc.run_from nd hi) = Inc.chain nd ++ appended hi.
+Proof.
+  induction hi as [|i hi IH]; intros nd; [cbn; rewrite app_nil_r; reflexivity|].
+  cbn [Inc.run_from fold_left]. fold (Inc.run_from (Inc.step nd i) hi). rewrite IH, inc_step_chain, <- app_assoc.
+  reflexivity.
+Qed.
+
+(* the statement about one height n: the block there, the recorded DA heights, and where its parts are in the
+   submitter model's DA log *)
+Definition included_in_da (s : Sub.state) (meta : Inc.metaT) (n : N) : Prop :=
+  n <= Sub.height s /\
+  exists hda dda,
+    Inc.meta_get meta (Inc.KH n) = Some hda /\ Inc.meta_get meta (Inc.KT n) = Some dda /\
+    (exists x, hid x = hid n /\ In (x, hda) (da_entries Sub.KHeader (Sub.calls (Sub.s_h s))) /\ In x (Sub.acc (Sub.s_h s))) /\
+    (if Sub.nonempty_at (Sub.s_init s) (Sub.s_chain s) n
+     then exists y, did y = did n /\ In (y, dda) (da_entries Sub.KData (Sub.calls (Sub.s_d s))) /\ In y (Sub.acc (Sub.s_d s))
+     else dda = hda).
+
+Lemma sound_to_da c init sh hi nd n :
+  1 <= init -> (forall m, did m <> 0) ->
+  let s := Sub.run c init sh in
+  backed s hi ->
+  Inc.base nd = init - 1 -> Inc.chain nd = blks_from init (Sub.s_chain s) ->
+  init - 1 < n ->
+  (exists x hda dda,
+     Inc.block_at nd n = Some x /\
+     Inc.meta_get (Inc.meta nd) (Inc.KH n) = Some hda /\ Inc.meta_get (Inc.meta nd) (Inc.KT n) = Some dda /\
+     In (Inc.IMarkH (Inc.bh x) hda) hi /\
+     (if Inc.bempty x then dda = hda else In (Inc.IMarkD (Inc.bd x) dda) hi)) ->
+  included_in_da s (Inc.meta nd) n.
+Proof.
+  intros H1 Hdid s (HA & HH & HD) Hbase Hchain Hn (x & hda & dda & Hblk & Hkh & Hkt & Hmh & Hmd).
+  assert (Hinit : Sub.s_init s = init) by apply SubP.run_init.
+  unfold Inc.block_at in Hblk. rewrite Hbase in Hblk. destruct (N.leb_spec n (init - 1)); [lia|].
+  rewrite Hchain, blks_from_nth in Hblk.
+  set (i := N.to_nat (n - (init - 1) - 1)) in *.
+  destruct (nth_error (Sub.s_chain s) i) as [b|] eqn:Hnth; [|discriminate Hblk].
+  cbn [option_map] in Hblk. inversion Hblk; subst x. clear Hblk.
+  assert (Hni : init + N.of_nat i = n) by (unfold i; lia). rewrite Hni in *.
+  assert (Hlen : (i < length (Sub.s_chain s))%nat) by (apply nth_error_Some; congruence).
+  assert (Hne : Sub.nonempty_at (Sub.s_init s) (Sub.s_chain s) n = b).
+  { unfold Sub.nonempty_at. rewrite Hinit. destruct (N.leb_spec init n); [|lia]. cbn [andb].
+    replace (N.to_nat (n - init)) with i by (unfold i; lia). apply nth_error_nth. exact Hnth. }
+  split; [unfold Sub.height; rewrite Hinit; lia|].
+  exists hda, dda. split; [exact Hkh|]. split; [exact Hkt|]. split.
+  - cbn [mk_blk Inc.bh] in Hmh. destruct (HH _ _ Hmh) as (x & Hx & Hin). exists x. split; [symmetry; exact Hx|].
+    apply acked_in_da in Hin. split; [exact Hin|].
+    apply (acc_da_entries c init sh Sub.KHeader x). exists hda. exact Hin.
+  - rewrite Hne. unfold Inc.bempty in Hmd. cbn [mk_blk Inc.bd] in Hmd. destruct b.
+    + destruct (N.eqb_spec (did n) 0) as [E|_]; [exfalso; exact (Hdid n E)|].
+      destruct (HD _ _ Hmd) as (y & Hy & Hin). exists y. split; [symmetry; exact Hy|].
+      apply acked_in_da in Hin. split; [exact Hin|].
+      apply (acc_da_entries c init sh Sub.KData y). exists dda. exact Hin.
+    + cbn in Hmd. exact Hmd.
+Qed.
+
+Lemma inc_run_shape init s hi :
+  1 <= init -> appended hi = blks_from init (Sub.s_chain s) ->
+  Inc.base (Inc.run (init - 1) hi) = init - 1 /\ Inc.chain (Inc.run (init - 1) hi) = blks_from init (Sub.s_chain s).
+Proof.
+  intros H1 HA. split; [apply (IncP.run_inv (init - 1) hi)|].
+  unfold Inc.run. rewrite inc_chain_run, HA. reflexivity.
+Qed.
+
+(* Target 3.  For every submitter history and every includer history backed by it (blocks appended = blocks
+   committed; every mark = an acknowledged acceptance in the submitter's call log, at that call's DA height):
+   every height the node reports as DA-included is a committed block whose header blob — and, if the block
+   has transactions, a data blob with its commitment — is in the submitter model's DA log at the recorded
+   DA heights. *)
+Theorem sub_inc_sound c init sh hi n :
+  1 <= init -> (forall m, did m <> 0) ->
+  let s := Sub.run c init sh in
+  backed s hi ->
+  let nd := Inc.run (init - 1) hi in
+  init - 1 < n <= Inc.rep nd ->
+  included_in_da s (Inc.meta nd) n.
+Proof.
+  intros H1 Hdid s HB nd Hn.
+  assert (Hinit : Sub.s_init s = init) by apply SubP.run_init.
+  destruct (inc_run_shape init s hi H1) as (Hb & Hc); [rewrite <- Hinit; apply HB|].
+  eapply sound_to_da; try eassumption; [lia|].
+  apply (IncP.sound (init - 1) hi n). exact Hn.
+Qed.
+
+(* the same for every height visible at the instant of death k effects into an includer run *)
+Theorem sub_inc_sound_at_death c init sh hi k n :
+  1 <= init -> (forall m, did m <> 0) ->
+  let s := Sub.run c init sh in
+  backed s hi ->
+  let nd := Inc.dying (Inc.run (init - 1) hi) k in
+  init - 1 < n <= Inc.di nd ->
+  included_in_da s (Inc.meta nd) n.
+Proof.
+  intros H1 Hdid s HB nd Hn.
+  assert (Hinit : Sub.s_init s = init) by apply SubP.run_init.
+  destruct (inc_run_shape init s hi H1) as (Hb & Hc); [rewrite <- Hinit; apply HB|].
+  destruct (IncP.apply_effs_fields (firstn k (Inc.include_effs (Inc.run (init - 1) hi))) (Inc.run (init - 1) hi))
+    as (F1 & _ & _ & _ & _ & F6).
+  eapply sound_to_da; try eassumption.
+  - unfold nd, Inc.dying. rewrite F6. exact Hb.
+  - unfold nd, Inc.dying. rewrite F1. exact Hc.
+  - lia.
+  - apply (IncP.sound_at_death (init - 1) hi k n). exact Hn.
+Qed.
+
+(* the canonical composition: one combined history drives both models *)
+Theorem e2e_da_included_sound c init ch n :
+  1 <= init -> (forall m, did m <> 0) ->
+  let s := Sub.run c init (sub_hist ch) in
+  let nd := Inc.run (init - 1) (derive c init ch) in
+  init - 1 < n <= Inc.rep nd ->
+  included_in_da s (Inc.meta nd) n.
+Proof.
+  intros H1 Hdid s nd Hn. apply sub_inc_sound; try assumption. apply derive_is_backed, H1.
+Qed.
+
+(* with collision-free header hashes the header blob is the one of height n itself; with pairwise distinct
+   data commitments so is the data blob *)
+Corollary included_in_da_exact s meta n :
+  (forall a b, hid a = hid b -> a = b) ->
+  included_in_da s meta n ->
+  exists hda, Inc.meta_get meta (Inc.KH n) = Some hda /\
+              In (n, hda) (da_entries Sub.KHeader (Sub.calls (Sub.s_h s))) /\ In n (Sub.acc (Sub.s_h s)).
+Proof.
+  intros Hinj (_ & hda & dda & Hkh & _ & (x & Hx & Hin & Hacc) & _). apply Hinj in Hx. subst x.
+  exists hda. split; [exact Hkh|]. split; assumption.
+Qed.
+
+Corollary included_in_da_exact_data s meta n :
+  (forall a b, did a = did b -> a = b) ->
+  included_in_da s meta n -> Sub.nonempty_at (Sub.s_init s) (Sub.s_chain s) n = true ->
+  exists dda, Inc.meta_get meta (Inc.KT n) = Some dda /\
+              In (n, dda) (da_entries Sub.KData (Sub.calls (Sub.s_d s))) /\ In n (Sub.acc (Sub.s_d s)).
+Proof.
+  intros Hinj (_ & hda & dda & _ & Hkt & _ & Hd) Hne. rewrite Hne in Hd. destruct Hd as (y & Hy & Hin & Hacc).
+  apply Hinj in Hy. subst y. exists dda. split; [exact Hkt|]. split; assumption.
+Qed.
+
+End SubInc.
